@@ -13,12 +13,14 @@ import (
 	"net"
 	"os"
 	"strings"
+	"sync"
 	"testing"
 	"time"
 
 	"github.com/btcsuite/btcd/btcec/v2"
 	"github.com/lightningnetwork/lnd/internal/verifkit"
 	"github.com/lightningnetwork/lnd/keychain"
+	"github.com/lightningnetwork/lnd/lnwire"
 )
 
 // c11Event is one step of a Transport behaviour (spec/Transport/TransportGen.tla).
@@ -33,6 +35,7 @@ type c11Event struct {
 	O1   int    `json:"o1"`
 	O2   int    `json:"o2"`
 	O3   int    `json:"o3"`
+	Cuts []int  `json:"cuts"`
 }
 
 type c11Timeout struct{}
@@ -139,6 +142,7 @@ type c11Session struct {
 	out   *verifkit.Writer
 	m     map[string]*Machine
 	bPriv *btcec.PrivateKey
+	aPub  *btcec.PublicKey
 	act   []byte
 	pipe  map[string]*c11Pipe
 	hsErr bool
@@ -152,6 +156,13 @@ type c11Session struct {
 func c11New(t *testing.T, rng *rand.Rand, out *verifkit.Writer) *c11Session {
 	return &c11Session{t: t, rng: rng, out: out, m: map[string]*Machine{},
 		pipe: map[string]*c11Pipe{"ab": {}, "ba": {}}, conn: map[string]*Conn{}, acc: map[string][]byte{}, hs: []string{}}
+}
+
+func btoi(b bool) int {
+	if b {
+		return 1
+	}
+	return 0
 }
 
 func c11Dir(m string) string {
@@ -189,7 +200,13 @@ func (s *c11Session) key() *btcec.PrivateKey {
 func (s *c11Session) emit(ev c11Event, err string, nn int, h string) {
 	rec := verifkit.Rec{"a": ev.A, "m": ev.M, "d": ev.D, "kind": ev.Kind, "size": ev.Size, "v": ev.V,
 		"k": ev.K, "o1": ev.O1, "o2": ev.O2, "o3": ev.O3, "h": h, "err": err, "nn": nn,
-		"Lab": len(s.pipe["ab"].buf), "Lba": len(s.pipe["ba"].buf), "hs": s.hs, "Arb": 0, "Brb": 0}
+		"Lab": len(s.pipe["ab"].buf), "Lba": len(s.pipe["ba"].buf), "hs": s.hs, "Arb": 0, "Brb": 0, "cuts": ev.Cuts, "rpk": 0}
+	if ev.Cuts == nil {
+		rec["cuts"] = []int{}
+	}
+	if b := s.m["B"]; b != nil && b.remoteStatic != nil && s.aPub != nil && b.remoteStatic.IsEqual(s.aPub) {
+		rec["rpk"] = 1
+	}
 	s.hs = []string{}
 	for n, c := range s.conn {
 		rec[n+"rb"] = c.readBuf.Len()
@@ -229,12 +246,30 @@ func (s *c11Session) rng8(lo, hi int) int { // uniform in [lo, hi]
 	return lo + s.rng.Intn(hi-lo+1)
 }
 
+func (s *c11Session) alter(act []byte, kind string) {
+	switch kind {
+	case "ver":
+		act[0] ^= byte(1 + s.rng.Intn(255))
+	case "eph":
+		copy(act[1:34], s.key().PubKey().SerializeCompressed())
+	case "badpt":
+		act[1] = 0x07
+	case "tag":
+		act[len(act)-1-s.rng.Intn(16)] ^= 1 << uint(s.rng.Intn(8))
+	case "ct":
+		act[1+s.rng.Intn(49)] ^= 1 << uint(s.rng.Intn(8))
+	default:
+		s.t.Fatalf("alter kind %q", kind)
+	}
+}
+
 // apply executes one event on the real code.
 func (s *c11Session) apply(ev c11Event) {
 	switch ev.A {
 	case "GenActOne":
 		aPriv, bPriv := s.key(), s.key()
 		s.bPriv = bPriv
+		s.aPub = aPriv.PubKey()
 		target := bPriv.PubKey()
 		if ev.Kind == "wrong" {
 			target = s.key().PubKey()
@@ -255,21 +290,12 @@ func (s *c11Session) apply(ev c11Event) {
 		s.act = a[:]
 		s.emit(ev, "", 0, "")
 
+	case "FragmentAct":
+		// the Machine API takes whole acts: fragmentation only exists under Dial / Listener (dial mode)
+		s.emit(ev, "", 0, "")
+
 	case "AlterAct":
-		switch ev.Kind {
-		case "ver":
-			s.act[0] ^= byte(1 + s.rng.Intn(255))
-		case "eph":
-			copy(s.act[1:34], s.key().PubKey().SerializeCompressed())
-		case "badpt":
-			s.act[1] = 0x07
-		case "tag":
-			s.act[len(s.act)-1-s.rng.Intn(16)] ^= 1 << uint(s.rng.Intn(8))
-		case "ct":
-			s.act[1+s.rng.Intn(49)] ^= 1 << uint(s.rng.Intn(8))
-		default:
-			s.t.Fatalf("alter kind %q", ev.Kind)
-		}
+		s.alter(s.act, ev.Kind)
 		s.emit(ev, "", 0, "")
 
 	case "RecvActOne":
@@ -474,7 +500,7 @@ func TestVerifC11Transport(t *testing.T) {
 		t.Fatalf("no schedules in %q", dir)
 	}
 	maxBursts := verifkit.EnvInt("VERIF_MAXBURSTS", 1<<30)
-	bursts := 0
+	bursts, dialed := 0, 0
 	for fi, f := range files {
 		evs, err := verifkit.ReadNDJSONInto[c11Event](f)
 		if err != nil {
@@ -483,7 +509,22 @@ func TestVerifC11Transport(t *testing.T) {
 		rng := rand.New(rand.NewSource(verifkit.Seed()*1000003 + int64(fi)))
 		s := c11New(t, rng, out)
 		s.emit(c11Event{A: "Reset", Kind: f}, "", 0, "")
+		frag := false
 		for _, ev := range evs {
+			frag = frag || ev.A == "FragmentAct"
+		}
+		// every schedule that fragments an act, and two in three of the others: the handshake
+		// through the real Dial and the real Listener
+		if frag || fi%3 != 2 {
+			k := s.dialHandshake(evs)
+			dialed += btoi(k > 0)
+			evs = evs[k:]
+		}
+		for _, ev := range evs {
+			if s.hsErr {
+				// a failed handshake ends the session (the generator never goes on after one)
+				break
+			}
 			if ev.A == "Burst" {
 				bursts++
 				if bursts > maxBursts {
@@ -495,7 +536,7 @@ func TestVerifC11Transport(t *testing.T) {
 			s.apply(ev)
 		}
 	}
-	t.Logf("C11: %d schedules, %d bursts, %d lines", len(files), bursts, out.Lines())
+	t.Logf("C11: %d schedules (%d handshakes through Dial/Listener), %d bursts, %d lines", len(files), dialed, bursts, out.Lines())
 }
 
 // TestVerifC11Free is the free-running seeded driver: inputs the generator
@@ -678,4 +719,174 @@ func TestVerifC11Conn(t *testing.T) {
 		}
 	}
 	t.Logf("C11 conn: %d sessions, %d lines", sessions, out.Lines())
+}
+
+// c11Tap is the wire under Dial / Listener.doHandshake: one end of a net.Pipe
+// whose writes (each write is one act) are altered and cut into fragments as
+// the schedule says.  A fragment is one Write on the pipe, i.e. what one Read
+// of the other side can get at most.
+type c11Tap struct {
+	net.Conn
+	s    *c11Session
+	acts []int // numbers of the acts this side writes, in order
+	mu   *sync.Mutex
+	plan map[int]*c11ActPlan
+	seen map[int]bool
+}
+
+type c11ActPlan struct {
+	cuts []int
+	alt  string
+	old  bool
+}
+
+// Setting a deadline on a TCP socket does not fail because the peer has closed; on a net.Pipe it does.
+func (c *c11Tap) SetReadDeadline(t time.Time) error {
+	_ = c.Conn.SetReadDeadline(t)
+	return nil
+}
+
+func (c *c11Tap) Write(b []byte) (int, error) {
+	c.mu.Lock()
+	k := 0
+	if len(c.acts) > 0 {
+		k, c.acts = c.acts[0], c.acts[1:]
+	}
+	c.seen[k] = true
+	pl := c.plan[k]
+	out := append([]byte{}, b...)
+	if pl != nil && pl.old {
+		o := NewBrontideMachine(true, &keychain.PrivKeyECDH{PrivKey: c.s.key()}, c.s.bPriv.PubKey())
+		a, _ := o.GenActOne()
+		out = a[:]
+	}
+	if pl != nil && pl.alt != "" {
+		c.s.alter(out, pl.alt)
+	}
+	c.mu.Unlock()
+	cuts := []int{len(out)}
+	if pl != nil && len(pl.cuts) > 0 {
+		cuts = pl.cuts
+	}
+	off := 0
+	for _, n := range cuts {
+		// like TCP: bytes sent to a peer that has just closed are accepted locally
+		_, _ = c.Conn.Write(out[off : off+n])
+		off += n
+	}
+	return len(b), nil
+}
+
+var c11HsActs = map[string]bool{"GenActOne": true, "RecvActOne": true, "GenActTwo": true, "RecvActTwo": true,
+	"GenActThree": true, "RecvActThree": true, "AlterAct": true, "OldActOne": true, "FragmentAct": true}
+
+// dialHandshake runs the handshake prefix of a schedule through the real Dial
+// and the real Listener.doHandshake over a tapped net.Pipe, and then emits the
+// prefix with what was observed: an act was written (so the act before it was
+// accepted), the error Dial / Accept returned, the two Machines afterwards.
+// It returns the number of events consumed (0: the schedule interleaves other
+// calls with the handshake; the caller replays it on the Machines directly).
+func (s *c11Session) dialHandshake(evs []c11Event) int {
+	n := 0
+	for n < len(evs) && c11HsActs[evs[n].A] {
+		n++
+	}
+	if n == 0 || evs[0].A != "GenActOne" {
+		return 0
+	}
+	for _, ev := range evs[n:] {
+		if c11HsActs[ev.A] {
+			return 0
+		}
+	}
+	plan := map[int]*c11ActPlan{1: {}, 2: {}, 3: {}}
+	cur := 0
+	for _, ev := range evs[:n] {
+		switch ev.A {
+		case "GenActOne":
+			cur = 1
+		case "GenActTwo":
+			cur = 2
+		case "GenActThree":
+			cur = 3
+		case "FragmentAct":
+			plan[cur].cuts = ev.Cuts
+		case "AlterAct":
+			plan[cur].alt = ev.Kind
+		case "OldActOne":
+			plan[cur].old = true
+		}
+	}
+	aPriv, bPriv := s.key(), s.key()
+	s.bPriv, s.aPub = bPriv, aPriv.PubKey()
+	target := bPriv.PubKey()
+	if evs[0].Kind == "wrong" {
+		target = s.key().PubKey()
+	}
+	cc, sc := net.Pipe()
+	mu, seen := &sync.Mutex{}, map[int]bool{}
+	ctap := &c11Tap{Conn: cc, s: s, acts: []int{1, 3}, mu: mu, plan: plan, seen: seen}
+	stap := &c11Tap{Conn: sc, s: s, acts: []int{2}, mu: mu, plan: plan, seen: seen}
+	l := &Listener{
+		localStatic:   &keychain.PrivKeyECDH{PrivKey: bPriv},
+		shouldAccept:  DisabledBanClosure,
+		handshakeSema: make(chan struct{}, 2),
+		conns:         make(chan maybeConn, 1),
+		quit:          make(chan struct{}),
+	}
+	go l.doHandshake(stap)
+	addr := &lnwire.NetAddress{IdentityKey: target, Address: &net.TCPAddr{IP: net.IPv4(127, 0, 0, 1), Port: 9735}}
+	dconn, derr := Dial(&keychain.PrivKeyECDH{PrivKey: aPriv}, addr, time.Second,
+		func(_, _ string, _ time.Duration) (net.Conn, error) { return ctap, nil })
+	var aconn *Conn
+	var aerr error
+	select {
+	case r := <-l.conns:
+		aconn, aerr = r.conn, r.err
+	case <-time.After(20 * time.Second):
+		s.t.Fatalf("listener did not answer")
+	}
+	cc.Close()
+	sc.Close()
+	mu.Lock()
+	defer mu.Unlock()
+	if dconn != nil {
+		s.m["A"] = dconn.noise
+	}
+	if aconn != nil {
+		s.m["B"] = aconn.noise
+	}
+	cls := func(err error) string {
+		c := c11Class(err)
+		if c == "other" {
+			c = "point"
+		}
+		return c
+	}
+	for _, ev := range evs[:n] {
+		err := ""
+		switch ev.A {
+		case "GenActOne":
+			if !seen[1] {
+				s.t.Fatalf("act one was not written")
+			}
+		case "RecvActOne":
+			if !seen[2] { // the listener answered nothing: it rejected act one
+				err = cls(aerr)
+			}
+		case "RecvActTwo":
+			if !seen[3] {
+				err = cls(derr)
+			}
+		case "RecvActThree":
+			if aconn == nil {
+				err = cls(aerr)
+			}
+		}
+		if err != "" {
+			s.hsErr = true
+		}
+		s.emit(ev, err, 0, "")
+	}
+	return n
 }
